@@ -77,7 +77,10 @@ where
             goal: goal.clone(),
             solution,
             stack_depth: Some(stack_depth),
-            links: Minimums { positive: dfn },
+            links: Minimums {
+                positive: dfn,
+                interrupted: false,
+            },
         };
         self.nodes.push(node);
         let previous_index = self.indices.insert(goal.clone(), dfn);
